@@ -92,11 +92,11 @@ def judge(script, configured_engine, results):
         if keyed:
             if d["user"] != st.user:
                 return f"request {k} carries user {d['user']!r} instead of {st.user!r} (the user's keys were not installed)"
+            if st.priv_alg and not d.get("encrypted"):
+                return f"request {k} is not encrypted although the user has a privacy key"
             why = c09.check_mac(st, dg)
             if why:
                 return f"request {k}: {why}"
-            if st.priv_alg and not d.get("encrypted"):
-                return f"request {k} is not encrypted although the user has a privacy key"
         else:
             if d["flags"] & 3:
                 return f"discovery probe carries security flags {d['flags'] & 3}"
@@ -189,7 +189,7 @@ def client_cases(rng, n, lossy=True):
     # engine ids: every session must end up with ITS engine's keys, and the caller's object must stay usable
     for mode in ("sync", "async"):
         auth = rng.choice([1, 2])
-        priv = rng.choice([0, 1, 2])
+        priv = rng.choice([1, 2])
         apw, ppw = b"shared-auth-secret", b"shared-priv-secret"
         peers = [e2e.Peer("v3", auth=auth, priv=priv, engine_id=bytes(rng.getrandbits(8) for _ in range(rng.choice([9, 12, 17]))),
                           user="shared", auth_pw=apw, priv_pw=ppw) for _ in range(2)]
